@@ -94,6 +94,10 @@ func (vc *VC) newFrame(fn *ssa.Function, con *Contract, depth int) *frame {
 			case *ssa.Phi:
 				if ins.Comment != "" {
 					f.names[ins.Comment] = append(f.names[ins.Comment], nameDef{val: ins, block: b, idx: i})
+					if ins.Comment == "rangeint.iter" {
+						// `for range n`: the hidden counter, spelled rangeiter in contracts
+						f.names["rangeiter"] = append(f.names["rangeiter"], nameDef{val: ins, block: b, idx: i})
+					}
 				}
 			case *ssa.Alloc:
 				// a variable that lives in a cell (address taken or captured by a closure)
